@@ -94,16 +94,19 @@ def rcHandler : Handler RS where
       | some gs, some gh, some ci => ({ s with gs := gs, gh := gh, ci := ci }, [])
       | _, _, _ => (s, ["obs bad-op"])
     | "start" :: t =>
-      match kvInt t "now" with
-      | some now =>
+      match kvInt t "now", (kvNat t "ctx").bind Ctx.ofKind with
+      | some now, some _ctx =>   -- the context is a parameter of the label; the model's step does not depend on it (C18_context_irrelevant)
         let (_, err) := s.t.sys.rc.step .start
         let t' := s.t.start rcChecker s.gs s.gh now
         ({ s with t := t', lastOp := "start" }, [s!"obs rc err={b01 err}", s!"obs mode refuse={b01 t'.sys.st.mustRefuse} meas=0"])
+      | _, _ => (s, ["obs bad-op"])
+    | "shutdown" :: t =>
+      match (kvNat t "ctx").bind Ctx.ofKind with
+      | some _ctx =>
+        let (_, err) := s.t.sys.rc.step .shutdown
+        let t' := s.t.shutdown rcChecker s.gs s.gh
+        ({ s with t := t', lastOp := "shutdown" }, [s!"obs rc err={b01 err}", s!"obs mode refuse={b01 t'.sys.st.mustRefuse} meas=0"])
       | none => (s, ["obs bad-op"])
-    | "shutdown" :: _ =>
-      let (_, err) := s.t.sys.rc.step .shutdown
-      let t' := s.t.shutdown rcChecker s.gs s.gh
-      ({ s with t := t', lastOp := "shutdown" }, [s!"obs rc err={b01 err}", s!"obs mode refuse={b01 t'.sys.st.mustRefuse} meas=0"])
     | "tick" :: t =>
       match kvInt t "a", kvInt t "b", kvNat t "r", kvNat t "g" with
       | some a, some b, some r, some g =>
@@ -161,7 +164,7 @@ def procHandler : Handler PS where
         let k := out.counts
         (s, [s!"obs res fwd={b01 out.forwarded.isSome} {rs} permanent={b01 out.res.isPermanent} acc={k.accepted} ref={k.refused} in={k.incoming} out={k.outgoing}"])
       | _, _, _, _ => (s, ["obs bad-op"])
-    | "stopsharer" :: _ => (s, ["obs stopped err=0"])
+    | "stopsharer" :: _ => (s, ["obs stopped err=0"])   -- whatever context the sharer leaves with
     | "mustrefuse" :: t =>
       match kvBool t "refusing" with
       | some r => (s, [s!"obs ext {b01 (extMustRefuse { mustRefuse := r })}"])
